@@ -353,6 +353,12 @@ func runC14(c *Ctx) error {
 				c.Rep.Find(report.Finding{Property: "C14", Family: "ordering", Shape: f + ":version-metadata-not-carried-as-written",
 					What: fmt.Sprintf("the configuration states build metadata %q; the %s package states version %q", meta, f, pmPre.Version), Input: in})
 			}
+			// … and so is the prerelease where the format's syntax has room for it as written (deb, ipk: after '~';
+			// rpm writes '-' as '_' because '-' separates version and release there)
+			if pre != "" && (f == "deb" || f == "ipk") && !strings.Contains(pmPre.Version, "~"+pre) {
+				c.Rep.Find(report.Finding{Property: "C14", Family: "ordering", Shape: f + ":prerelease-not-carried-as-written",
+					What: fmt.Sprintf("the version %s-%s has the prerelease %q; the %s package states version %q", core, pre, pre, f, pmPre.Version), Input: in})
+			}
 			switch f {
 			case "deb", "ipk":
 				o, _ := c.D.Ask(fmt.Sprintf("dpkgcmp %s %s", wire.H(pmPre.Version), wire.H(pmRel.Version)))
